@@ -23,6 +23,12 @@ MOD = "vf.props.c14"
 WORDS = ["aa", "bb", "cc"]
 
 
+def _words(cfg):
+    """vocabulary of the configuration; with case=True the second word is the first one capitalised (distinct
+    tokens for scikit-learn when lowercase=False: a stop list is matched case-sensitively)"""
+    return ["aa", "Aa", "cc"] if cfg.get("case") else WORDS
+
+
 class StopSet:
     def __init__(self, flags):
         self.flags = flags
@@ -40,19 +46,29 @@ def run_ngrams(cfg):
     L, mn, mx, V = cfg["L"], cfg["min_n"], cfg["max_n"], cfg["V"]
     cls, parent = (st.TraceableCountVectorizer, CountVectorizer) if cfg["cls"] == "count" else (st.TraceableTfidfVectorizer, TfidfVectorizer)
 
+    words = _words(cfg)
+
     def h(e):
         idx = [e.realize(e.int(f"tok_{i}", 0, V - 1)) for i in range(L)]
-        tokens = [WORDS[i] for i in idx]
+        tokens = [words[i] for i in idx]
         stop = None
         if cfg["stop"]:
-            flags = {w: e.bool(f"stop_{w}") for w in WORDS[:V]}
+            flags = {w: e.bool(f"stop_{w}") for w in words[:V]}
             stop = StopSet(flags)
-        ours = cls(ngram_range=(mn, mx))._word_ngrams(list(tokens), stop)
+        vec = cls(ngram_range=(mn, mx))
+        ours = vec._word_ngrams(list(tokens), stop)
         ref = parent(ngram_range=(mn, mx))._word_ngrams(list(tokens), stop)
         flat = all(isinstance(g, tuple) and len(g) >= 1 and all(isinstance(t, str) for t in g) for g in ours)
         e.prove(flat, "ngrams-are-flat-token-tuples")
         if flat:
             e.prove([" ".join(g) for g in ours] == list(ref), "same-ngram-sequence-as-scikit-learn")
+        # history: the same vectorizer object with another n-gram range (set_params) must follow it
+        rng2 = (1, 1) if (mn, mx) != (1, 1) else (1, 2)
+        vec.set_params(ngram_range=rng2)
+        ours2 = vec._word_ngrams(list(tokens), stop)
+        ref2 = parent(ngram_range=rng2)._word_ngrams(list(tokens), stop)
+        ok2 = all(isinstance(g, tuple) and all(isinstance(t, str) for t in g) for g in ours2)
+        e.prove(ok2 and [" ".join(g) for g in ours2] == list(ref2), "same-ngram-sequence-after-set_params(ngram_range)")
 
     eng = sx.Engine(name=f"C14{cfg}")
     eng.stop_on_cex = False
@@ -98,10 +114,26 @@ def replay(cfg, inputs, label):
     if cfg.get("kind") == "lemma":
         return False, "lemma about Python's ordering: nothing to replay on the library"
     L, V = cfg["L"], cfg["V"]
-    doc = " ".join(WORDS[int(inputs.get(f"tok_{i}", 0))] for i in range(L))
-    stop = [w for w in WORDS[:V] if inputs.get(f"stop_{w}")] if cfg["stop"] else None
-    corpus = [doc, "aa bb cc aa", "", "cc"]
+    words = _words(cfg)
+    doc = " ".join(words[int(inputs.get(f"tok_{i}", 0))] for i in range(L))
+    stop = [w for w in words[:V] if inputs.get(f"stop_{w}")] if cfg["stop"] else None
+    corpus = [doc, "aa bb cc aa", "", "cc"] + (["Aa aa Aa cc"] if cfg.get("case") else [])
     kw = dict(ngram_range=(cfg["min_n"], cfg["max_n"]))
+    if cfg.get("case"):
+        kw["lowercase"] = False
+    if label.startswith("same-ngram-sequence-after-set_params"):
+        # history on the real vectorizers: fit, set_params(ngram_range), fit again
+        rng2 = (1, 1) if (cfg["min_n"], cfg["max_n"]) != (1, 1) else (1, 2)
+        a, b = cls(**kw), parent(**kw)
+        try:
+            a.fit(corpus)
+            a.set_params(ngram_range=rng2)
+            b.set_params(ngram_range=rng2)
+            Ma, Mb = a.fit_transform(corpus), b.fit_transform(corpus)
+            if Ma.shape != Mb.shape or abs(Ma - Mb).sum() > 1e-12:
+                return True, dict(history=f"fit with ngram_range={kw['ngram_range']}, set_params(ngram_range={rng2}), fit again", traceable_shape=list(Ma.shape), sklearn_shape=list(Mb.shape))
+        except ValueError:
+            pass
     if cfg["stop"]:
         kw["stop_words"] = stop
     for extra in ({}, {"binary": True} if cfg["cls"] == "count" else {"sublinear_tf": True}, {"max_features": 3}, {"min_df": 2}):
@@ -177,6 +209,8 @@ def configs(tier):
                     for cls in ("count", "tfidf"):
                         V = 2 if (tier == "quick" or L > 5) else 3
                         out.append(dict(L=L, min_n=mn, max_n=mx, stop=stop, cls=cls, V=V))
+                        if stop and cls == "count" and L <= 3:
+                            out.append(dict(L=L, min_n=mn, max_n=mx, stop=stop, cls=cls, V=2, case=True))
     return out
 
 
